@@ -63,7 +63,7 @@ VM_MAX_INTS = 5000
 
 
 def correspondence(rep, tag, binary, cases, label, nontrivial=None, oracle=None, known=None, impl_out=None,
-                   vm_sample=None):
+                   vm_sample=None, model=True):
     """Runs the implementation and the model on the cases and compares.
     oracle(case, impl_result) -> None | str evaluates the property's own
     predicate on the implementation's output (the search for a failing input).
@@ -95,6 +95,12 @@ def correspondence(rep, tag, binary, cases, label, nontrivial=None, oracle=None,
         c, r, msg = first_fail
         rep.violation({"kind": "oracle", "what": msg, "case_kind": label, "case": c, "impl_result": r,
                        "failing_cases": n_oracle_fail})
+    if not model:
+        # implementation only (cases too large for the model in this tier): the caller's oracle decides
+        io = rep.cov["correspondence"].setdefault(label + " (implementation only, direct oracle)", {"cases": 0, "impl_s": 0})
+        io["cases"] += len(cases)
+        io["impl_s"] = round(io["impl_s"] + t1 - t0, 2)
+        return impl
     # every case goes through the extracted model (OCaml); an evenly spread subsample is also
     # evaluated inside Coq by vm_compute, which cross-checks the extraction and the OCaml driver
     mism, _ = sfv.run_model_diff_ocaml(cases, impl)
